@@ -2,7 +2,7 @@
 
 R1 who may exec, R2 format-string taint, R3 exception escape, R4 reserved
 names, R5a a left-hand variable exists, R5b statement kind, R6 termination
-shape, R7 end-of-input consistency.
+shape, R7 end-of-input consistency, R8 outside effects.
 """
 
 from __future__ import annotations
@@ -457,7 +457,7 @@ def _beliefs(R, f_escape: Escape):
         return (True, 'combine() is only called on the entry stored under the argument\'s own name')
 
     def fact_parse_after_compile(site: Site):
-        f = Fn(R, f'{P}.parse_model')
+        f = Fn(R, site.func)
         def is_astparse(x):
             return is_call(x, 'ast.parse') or (is_call(x, 'compile') and 'PyCF_ONLY_AST' in text(x))
 
@@ -466,6 +466,34 @@ def _beliefs(R, f_escape: Escape):
 
         par = [n for n in f.cfg.nodes if n.ast is not None and n.kind == 'stmt' and any(is_astparse(x) for x in ast.walk(n.ast))]
         comp = [n for n in f.cfg.nodes if n.ast is not None and n.kind == 'stmt' and any(is_plain_compile(x) for x in ast.walk(n.ast))]
+        if par and not comp and site.func.count('.') == P.count('.') + 1:
+            # the parse sits in a helper of its own: the text is compiled by the caller before the helper is called
+            name = site.func.rsplit('.', 1)[-1]
+            pa = [x for x in ast.walk(par[0].ast) if is_astparse(x)][0]
+            params = f.fi.params()
+            if len(par) != 1 or not pa.args or text(pa.args[0]) not in params:
+                raise Unknown(f'{site.func}: ast.parse() of something other than a parameter; the caller\'s compile() was not matched')
+            idx = params.index(text(pa.args[0]))
+            checked = 0
+            for fn_ in R.repo.module(P).tree.body:
+                if not isinstance(fn_, ast.FunctionDef) or fn_.name == name or not any(is_call(x, name) for x in ast.walk(fn_)):
+                    continue
+                g = Fn(R, f'{P}.{fn_.name}')
+                gcomp = [n for n in g.cfg.nodes if n.ast is not None and n.kind in ('stmt', 'test') and any(is_plain_compile(x) for x in ast.walk(n.ast))]
+                for n in g.cfg.nodes:
+                    if n.ast is None or n.kind not in ('stmt', 'test'):
+                        continue
+                    for x in ast.walk(n.ast):
+                        if is_call(x, name):
+                            arg = x.args[idx] if idx < len(x.args) else next((k.value for k in x.keywords if k.arg == params[idx]), None)
+                            good = arg is not None and any(c.id in g.dom[n.id] and c.id != n.id and c.trys and
+                                                           text([y for y in ast.walk(c.ast) if is_plain_compile(y)][0].args[0]) == text(arg) for c in gcomp)
+                            if not good:
+                                return (False, f'`{text(x)[:60]}` in {fn_.name} is not preceded by compile() of the same text inside try/except SyntaxError')
+                            checked += 1
+            if not checked:
+                raise Unknown(f'{site.func}: no caller found for the helper that parses the generated code')
+            return (True, f'every call of {name}() is dominated by compile() of the same text inside try/except SyntaxError')
         if not par or not comp:
             return (False, 'no compile() before ast.parse()')
         ok = True
@@ -958,18 +986,49 @@ def r5d_repeated_definition(R) -> None:
     raise Unknown(f'{q}: no repeated-definition test before the merge and Symbol.combine\'s own test was not recognised')
 
 
-def r5b_statement_kind(R) -> None:
+def _syntax_checker(R):
+    """The function that holds the syntax check: parse_model, or the helper it calls that compiles the generated code
+    (found by role: the one function reachable from parse_model, through calls by bare name, with a plain `compile(...)`)."""
     q = f'{P}.parse_model'
+    top = R.repo.func(q)
+    mod = R.repo.module(P)
+    defs = {n.name: n for n in mod.tree.body if isinstance(n, ast.FunctionDef)}
+
+    def plain_compile(x):
+        return is_call(x, 'compile') and 'PyCF_ONLY_AST' not in text(x)
+
+    if any(plain_compile(x) for x in ast.walk(top.node)):
+        return q, None
+    seen, todo, found = set(), [top.node], []
+    while todo:
+        fn_ = todo.pop()
+        for x in ast.walk(fn_):
+            if isinstance(x, ast.Call) and isinstance(x.func, ast.Name) and x.func.id in defs and x.func.id not in seen:
+                seen.add(x.func.id)
+                if any(plain_compile(y) for y in ast.walk(defs[x.func.id])):
+                    found.append(x.func.id)
+                else:
+                    todo.append(defs[x.func.id])
+    if len(found) == 1 and found[0] not in ('parse_equation', 'parse_equation_terms', 'split_equations_iter', 'split_equations'):
+        return f'{P}.{found[0]}', found[0]
+    return q, None
+
+
+def r5b_statement_kind(R) -> None:
+    top_q = f'{P}.parse_model'
+    q, helper = _syntax_checker(R)
     f = Fn(R, q)
+    top = f if helper is None else Fn(R, top_q)
     tests = []
     for t in f.tests():
         if 'ast.Assign' in text(t.ast) and 'isinstance' in text(t.ast):
             tests.append(t)
     if not tests:
         # is the generated statement inspected by anything else?
-        uses_ast = any(is_call(x, 'ast.parse') or (is_call(x, 'compile') and 'PyCF_ONLY_AST' in text(x)) for x in ast.walk(f.fi.node))
+        uses_ast = any(is_call(x, 'ast.parse') or (is_call(x, 'compile') and 'PyCF_ONLY_AST' in text(x)) or 'ast.Assign' in text(x)
+                       for fn_ in R.repo.module(P).tree.body if isinstance(fn_, ast.FunctionDef) for x in ast.walk(fn_) if isinstance(x, (ast.Call, ast.Attribute)))
         if uses_ast:
-            raise Unknown(f'{q}: statement is parsed to an AST but no isinstance(..., ast.Assign) test was found')
+            raise Unknown(f'{q}: statement is parsed to an AST but no isinstance(..., ast.Assign) test was found where the code is compiled')
         R.violation(q, 'no-statement-kind-check',
                     "the syntax check only tests that the generated statement compiles: 'Y == X', 'Y += X', 'Y = Z = X', 'Y = X; Z = W' are accepted "
                     '(Y declared endogenous but never assigned, or an exogenous variable assigned)', where=f.fi.where)
@@ -990,12 +1049,31 @@ def r5b_statement_kind(R) -> None:
     # failing branch records a problem or raises
     fail_edge = 'T' if neg else 'F'
     tg = [b for (b, lab) in t.succ if lab == fail_edge]
+
+    def records(first_ast) -> bool:
+        return first_ast is not None and (('problem_statements.append' in text(first_ast)) or isinstance(first_ast, ast.Raise))
+
     ok = False
     for b in tg:
-        reach = f.cfg.reachable_from(b, avoid=[t.id])
         first = f.cfg.nodes[b]
-        if first.ast is not None and (('problem_statements.append' in text(first.ast)) or isinstance(first.ast, ast.Raise)):
+        if records(first.ast):
             ok = True
+        elif helper is not None and isinstance(first.ast, ast.Return) and isinstance(first.ast.value, ast.Constant):
+            # the helper answers `False` (`True`): the caller must record the problem on that answer
+            falsy = not first.ast.value.value
+            for tt in top.tests():
+                core, neg2 = tt.ast, False
+                if isinstance(core, ast.UnaryOp) and isinstance(core.op, ast.Not):
+                    core, neg2 = core.operand, True
+                if is_call(core, helper):
+                    edge = ('T' if neg2 else 'F') if falsy else ('F' if neg2 else 'T')
+                    for (b2, lab2) in tt.succ:
+                        if lab2 == edge and records(top.cfg.nodes[b2].ast):
+                            ok = True
+            if not ok and not any(is_call(tt.ast, helper) or (isinstance(tt.ast, ast.UnaryOp) and is_call(tt.ast.operand, helper)) for tt in top.tests()):
+                raise Unknown(f'{top_q}: the answer of {helper}() is not tested directly')
+        elif isinstance(first.ast, ast.Assign) and isinstance(first.ast.value, ast.Constant):
+            raise Unknown(f'{q}: the failing branch of the statement-kind test sets a flag (`{text(first.ast)[:50]}`); its use was not followed')
     R.check(ok, q, 'statement-kind-fails', 'a statement of the wrong kind is recorded as a problem (ParserError)',
             'the failing branch of the statement-kind test neither records a problem nor raises', where=f.where(t))
     # what is checked is what will be built: the compiled text is the symbol's code itself
@@ -1016,21 +1094,23 @@ def r5b_statement_kind(R) -> None:
                 f'`{text(c)[:70]}` compiles a transformed text (not the symbol\'s `code` itself): a statement can pass the check and still fail to build '
                 f'(or the reverse)', where=f.fi.where)
     # the AST comes from the same text that was compiled
+    compiled = {text(c.args[0]) for c in comp if c.args}
     src_ok = False
     for x in ast.walk(f.fi.node):
-        if is_call(x, 'ast.parse') and x.args and text(x.args[0]) == 'e':
+        if is_call(x, 'ast.parse') and x.args and text(x.args[0]) in compiled:
             src_ok = True
-        if is_call(x, 'compile') and 'PyCF_ONLY_AST' in text(x) and text(x.args[0]) == 'e':
+        if is_call(x, 'compile') and 'PyCF_ONLY_AST' in text(x) and text(x.args[0]) in compiled:
             src_ok = True
-    R.check(src_ok, q, 'statement-kind-source', 'the inspected AST is that of the generated statement', 'the AST inspected is not parsed from the generated statement `e`', where=f.where(t))
+    R.check(src_ok, q, 'statement-kind-source', 'the inspected AST is that of the generated statement', f'the AST inspected is not parsed from the generated statement (the text that is compiled: {sorted(compiled)})', where=f.where(t))
     # exemptions: only verbatim code
     ex = []
     for (a, truth, tn) in f.guard_atoms(t.id):
         if 'type' in text(a) and 'Type.' in text(a):
             ex.append((text(a), truth))
-    ok_ex = all((a in ('s.type != Type.VERBATIM',) and truth) or (a in ('s.type == Type.VERBATIM',) and not truth) or
-                (a in ('s.type == Type.ENDOGENOUS',) and truth) for (a, truth) in ex)
-    R.check(ok_ex, q, 'statement-kind-exemptions:' + repr(ex)[:80], 'only verbatim code is exempt from the statement-kind test',
+    import re as _re
+    ok_ex = all((_re.fullmatch(r'\w+\.type != Type\.VERBATIM', a) and truth) or (_re.fullmatch(r'\w+\.type == Type\.VERBATIM', a) and not truth) or
+                (_re.fullmatch(r'\w+\.type == Type\.ENDOGENOUS', a) and truth) for (a, truth) in ex)
+    R.check(bool(ok_ex), q, 'statement-kind-exemptions:' + repr(ex)[:80], 'only verbatim code is exempt from the statement-kind test',
             f'the statement-kind test is skipped under {ex}', where=f.where(t))
 
 
@@ -1137,6 +1217,107 @@ def r7_end_of_input(R) -> None:
     R.expect(q, len(atoms), 2, 'conjuncts of the completion predicate')
 
 
+# ---------------------------------------------------------------------------
+# R8: nothing that parsing or building a *string* can reach touches the world outside the returned objects.
+EFFECT_CALLS = {
+    'open': 'opens a file', 'print': 'writes to standard output', 'input': 'reads standard input', '__import__': 'imports a module by name',
+    'breakpoint': 'enters the debugger',
+}
+EFFECT_PREFIXES = {
+    'os.': 'consults or changes the operating-system state (file system, environment, working directory)',
+    'shutil.': 'changes the file system', 'subprocess.': 'starts a process', 'tempfile.': 'creates files', 'pathlib.': 'names a location in the file system',
+    'importlib.': 'imports a module by name', 'random.': 'reads or changes the global random state', 'np.random.': 'reads or changes the global random state',
+    'time.': 'reads the clock', 'locale.': 'reads or changes the process locale', 'logging.': 'writes to the process-wide logging configuration',
+    'sys.set': 'changes interpreter-wide settings', 'sys.exit': 'ends the process', 'sys.path.': 'changes the import path',
+    'np.seterr': 'changes NumPy\'s process-wide error state', 'np.set_printoptions': 'changes NumPy\'s process-wide print options',
+}
+PURE_OS = {'os.fspath', 'os.path.join', 'os.path.basename', 'os.path.dirname', 'os.path.splitext', 'os.path.split', 'os.path.normpath', 'os.fsdecode', 'os.fsencode'}
+WARNING_FILTERS = {'warnings.simplefilter', 'warnings.filterwarnings', 'warnings.resetwarnings'}
+
+
+def _within_catch_warnings(fnode: ast.AST, node: ast.AST) -> bool:
+    for w in ast.walk(fnode):
+        if isinstance(w, ast.With) and any(is_call(it.context_expr, 'warnings.catch_warnings') for it in w.items):
+            if any(x is node for b in w.body for x in ast.walk(b)):
+                return True
+    return False
+
+
+def r8_outside_effects(R) -> None:
+    esc = Escape(R.repo, P, fsic_hierarchy(R.repo))
+    reach: Set[str] = set()
+    for e in ('parse_model', 'build_model', 'build_model_definition'):
+        reach |= esc.reachable_functions(f'{P}.{e}')
+    reach = {q for q in reach if q.startswith(P + '.')}
+    mod = R.repo.module(P)
+    imported = set()
+    for st in mod.tree.body:
+        if isinstance(st, ast.Import):
+            imported |= {(a.asname or a.name).split('.')[0] for a in st.names}
+    n_sites = n_filters = 0
+    for q in sorted(reach):
+        fi = R.repo.functions[q]
+        f = None
+        for n in iter_own_nodes(fi.node):
+            where = f'{fi.module.relpath}:{getattr(n, "lineno", fi.node.lineno)}'
+            if isinstance(n, ast.Global):
+                R.violation(q, f'global:{",".join(n.names)}', f'`global {", ".join(n.names)}` in {fi.name}(): parsing/building rebinds module-level state', where=where)
+                continue
+            if isinstance(n, (ast.Assign, ast.AugAssign)):
+                for tg in (n.targets if isinstance(n, ast.Assign) else [n.target]):
+                    base = tg
+                    while isinstance(base, (ast.Attribute, ast.Subscript)):
+                        base = base.value
+                    if isinstance(tg, (ast.Attribute, ast.Subscript)) and isinstance(base, ast.Name) and base.id in imported and base.id not in fi.params() \
+                            and base.id not in {x.id for x in ast.walk(fi.node) if isinstance(x, ast.Name) and isinstance(x.ctx, ast.Store)}:
+                        R.violation(q, f'module-state:{text(tg)[:40]}', f'`{text(n)[:60]}` in {fi.name}() stores into the imported module `{base.id}`: an effect outside the returned objects', where=where)
+                continue
+            if not isinstance(n, ast.Call):
+                continue
+            d = dotted(n.func) or ''
+            if d in WARNING_FILTERS:
+                n_filters += 1
+                if _within_catch_warnings(fi.node, n):
+                    R.check(True, q, f'filter-scoped:{d}', 'the warnings filter is changed inside warnings.catch_warnings(), which restores it', '', where=where)
+                    continue
+                # is every call of this function itself inside a catch_warnings block?
+                callers = [(g, x) for g in R.repo.functions.values() if g.qualname.startswith(P + '.') for x in iter_own_nodes(g.node) if is_call(x, fi.name)]
+                if callers and all(_within_catch_warnings(g.node, x) for (g, x) in callers):
+                    R.check(True, q, f'filter-scoped-by-caller:{d}', 'the warnings filter is changed by a helper that is only called inside warnings.catch_warnings()', '', where=where)
+                    continue
+                if callers and any(_within_catch_warnings(g.node, x) for (g, x) in callers):
+                    raise Unknown(f'{q}: `{d}` is reached both inside and outside warnings.catch_warnings()')
+                R.violation(q, f'filter-leaks:{d}',
+                            f'`{text(n)[:50]}` in {fi.name}() runs outside any `with warnings.catch_warnings()` block: the filter it installs is never removed, so every '
+                            f'parse changes `warnings.filters` for the rest of the process (an effect outside the returned objects)', where=where)
+                continue
+            why = EFFECT_CALLS.get(d)
+            if why is None and d not in PURE_OS:
+                why = next((w_ for pre, w_ in EFFECT_PREFIXES.items() if d.startswith(pre)), None)
+            if why is None:
+                continue
+            n_sites += 1
+            # a site that a *string* input cannot reach (guarded by a type test that no str passes) is outside the property
+            f = f or Fn(R, q)
+            node = [m for m in f.cfg.nodes if m.ast is not None and any(x is n for x in ast.walk(m.ast))]
+            exempt = False
+            if node:
+                for (a, truth, _t) in f.guard_atoms(node[0].id):
+                    if truth and is_call(a, 'isinstance') and len(a.args) == 2 and text(a.args[1]) not in ('str', 'object') and 'str' not in text(a.args[1]):
+                        exempt = True
+                    if truth and is_call(a, 'hasattr') and len(a.args) == 2 and isinstance(a.args[1], ast.Constant) and not hasattr('', str(a.args[1].value)):
+                        exempt = True
+                    if not truth and is_call(a, 'isinstance') and len(a.args) == 2 and text(a.args[1]) == 'str':
+                        exempt = True
+            if exempt:
+                R.check(True, q, f'effect-not-for-strings:{d}', 'the call is reached only for inputs that are not strings', '', where=where)
+                continue
+            R.violation(q, f'outside-effect:{d}',
+                        f'`{text(n)[:60]}` in {fi.name}() {why}: parse_model/build_model can reach it for a string input, so the result or the process state '
+                        f'depends on (or changes) something outside the input and the returned objects', where=where)
+    R.check(len(reach) >= 8, P, 'effects-scope', 'functions on the parse/build call graph scanned for outside effects', f'only {len(reach)} functions reachable from parse_model/build_model', where='fsic/parser.py')
+
+
 def run(R) -> None:
     R.explanation = (
         'C13: who-may-exec over fsic/parser.py with provenance of the executed text; format-string taint of the template by '
@@ -1144,7 +1325,7 @@ def run(R) -> None:
         'table and handler modelling, every non-own exception either reported or discharged by a named static fact (regex-AST, '
         'string-shape, dominance); names reserved by the BaseModel __init__ chain (events laid out along the MRO) vs names the parser '
         'knows; left-hand-side and statement-kind checks; loop/recursion shape; end-of-input coverage of every conjunct of the '
-        'completion predicate. Does not decide catastrophic backtracking nor that build_model succeeds for every accepted script.'
+        'completion predicate; who-may-call table of outside effects (files, OS, process-wide settings, warnings filters outside catch_warnings) over the parse/build call graph. Does not decide catastrophic backtracking nor that build_model succeeds for every accepted script.'
     )
     R.rule('C13.R1', lambda: r1_who_may_exec(R))
     R.rule('C13.R2', lambda: r2_format_taint(R))
@@ -1156,3 +1337,4 @@ def run(R) -> None:
     R.rule('C13.R5d', lambda: r5d_repeated_definition(R))
     R.rule('C13.R6', lambda: r6_termination(R))
     R.rule('C13.R7', lambda: r7_end_of_input(R))
+    R.rule('C13.R8', lambda: r8_outside_effects(R))
